@@ -64,6 +64,11 @@ let handle cmd =
     let n = nint () in
     let cands = rd_list n (fun () -> let lb = z_of_int (nint ()) in let d = z_of_int (nint ()) in (lb, d)) in
     String.concat " " (List.map (fun z -> string_of_int (int_of_z z)) (search k use_lb maxd cands))
+  | "hfit" -> let n = nint () in let md = z_of_int (nint ()) in let ne = nint () in
+    let es = rd_list ne (fun () -> let r = nat_of_int (nint ()) in let c = nat_of_int (nint ()) in
+                                     let d = z_of_int (nint ()) in { er = r; ec = c; ed = d }) in
+    String.concat " " (List.map (fun m -> string_of_int (int_of_nat m.m_into) ^ "," ^ string_of_int (int_of_nat m.m_from)
+                                           ^ "," ^ string_of_int (int_of_z m.m_dist)) (fit_model (nat_of_int n) md es))
   | "ed" -> let inner = if nint () = 0 then SqEuclid else AbsDiff in
     let s1 = rd_series () in let s2 = rd_series () in
     string_of_int (int_of_z (ed_model inner s1 s2))
